@@ -225,11 +225,8 @@ def rule_translation(ctx: Ctx, rid="C02.TRANSLATION", select=None, focus="all"):
             _choices(exp, e)
             got, exp = tuple(g), tuple(e)
             if focus == "order" and len(g) == len(e):
-                # relative order of the declared groups is kept (a sub-sequence), per return statement
-                def subseq(a, b):
-                    it = iter(b)
-                    return all(any(x == y for y in it) for x in a)
-                if all(subseq(x[1], y[1]) for x, y in zip(g, e)):
+                # one slot per declared group, in declared order, per return statement (the weights' values are C03's)
+                if all(tuple(x[1]) == tuple(y[1]) for x, y in zip(g, e)):
                     got = exp
         elif focus == "control":
             got = _control_view(got, exp)
@@ -796,6 +793,39 @@ def rule_header_imports(ctx: Ctx, rid="C14.HEADER-COVERS-FREE-NAMES"):
 
 
 # ------------------------------------------------------------------ C07 identifiers in Python positions (D7)
+def rule_depth_unbounded(ctx: Ctx, rid="C14.DEPTH-UNBOUNDED"):
+    """The generator keeps a nesting-depth counter (an attribute it increments and decrements).  Text that depends on
+    it must grow with it without a ceiling: cutting it out of a fixed-size string, or clamping the counter, makes every
+    level beyond the ceiling come out at the same indentation (the block structure of the generated module is lost)."""
+    gm = ctx.mod(GEN)
+    cls = gm.classes().get("PythonCodeGen")
+    if cls is None:
+        raise AnalysisError("anchor vanished: class PythonCodeGen")
+    counters = set()
+    for n in ast.walk(cls):
+        if isinstance(n, ast.AugAssign) and isinstance(n.op, (ast.Add, ast.Sub)) and isinstance(n.target, ast.Attribute) \
+                and dotted(n.target.value) == "self":
+            counters.add(n.target.attr)
+    if not counters:
+        ctx.rep.ok(rid, f"{GEN}:PythonCodeGen", "no depth counter attribute (nothing is incremented/decremented on self)", nontrivial=False)
+        return
+
+    def mentions_counter(e):
+        return any(isinstance(x, ast.Attribute) and x.attr in counters and dotted(x.value) == "self" for x in ast.walk(e))
+    bad = []
+    for n in ast.walk(cls):
+        if isinstance(n, ast.Subscript) and isinstance(n.slice, ast.Slice) and isinstance(n.ctx, ast.Load):
+            bounds = [b for b in (n.slice.lower, n.slice.upper) if b is not None]
+            if any(mentions_counter(b) for b in bounds):
+                bad.append((n, f"`{norm(n)[:70]}` cuts a per-depth text out of a fixed string: beyond its length every level gets the same text"))
+        if isinstance(n, ast.Call) and dotted(n.func) in ("min",) and any(mentions_counter(a) for a in n.args) and len(n.args) > 1:
+            bad.append((n, f"`{norm(n)[:70]}` clamps the depth counter"))
+    for n, why in bad:
+        ctx.rep.bad(rid, f"{GEN}:PythonCodeGen[{sorted(counters)[0]}]", why, site=gm.site(n), text=norm(n)[:100])
+    if not bad:
+        ctx.rep.ok(rid, f"{GEN}:PythonCodeGen[{', '.join(sorted(counters))}]", "the depth counter is never used as a slice bound nor clamped")
+
+
 def _prog_ident_names(prog) -> set:
     """Names of all DSL identifiers of a shape program (they are never skeleton names, whatever route they take
     through the generator)."""
